@@ -1,7 +1,7 @@
 PROP = dict(
     properties="Properties/C11.v",
     harness_mods=["Harness/C11.v"],
-    runs=[dict(cmd="c11", quick=40, thorough=1700), dict(cmd="c11gc", quick=24, thorough=600)],
+    runs=[dict(cmd="c11", quick=40, thorough=1700), dict(cmd="c11gc", quick=30, thorough=600)],
     trusted_base=[
         "hand-written Gallina model coq/TrieRC/Model.v of mpt.Trie's reference counting (addRef/removeRef, getFromStore's cache side effect, Flush, updateRefCount) and of stateroot.Module (AddMPTBatch struct copy, UpdateCurrentLocal, GC), tied to the Go code by correspondence on whole histories (every DataMPT key after every event)",
         "the harness's own node parser and occurrence counter (harness/c11.go c11Parse/c11WalkRoot), independent of pkg/core/mpt",
